@@ -10,7 +10,8 @@ M: the exported partitions of all ranks are the instance data of
    spec/DistExec.tla (the executor at the grain of its blocking MPI calls
    over a model of MPI matching); TLC explores ALL schedules of every
    instance: crash (KeyError = read before produced / after released, debug
-   asserts, missing outputs), spin, misdelivery, wrong outputs, deadlock;
+   asserts, missing outputs), spin, misdelivery, wrong outputs, deadlock, a
+   receive request or a message left over when the ranks return;
    liveness <>AllDone under weak fairness in a separate run.
 E: the REAL execute_distributed_partition runs under a controlled scheduler
    (choice points: which rank continues, which subset Waitsome returns) on
@@ -139,6 +140,8 @@ def analyse(run: Run, progs: list[dict], results: list[dict], tier: str,
                     kinds.append("spin" if st["exc"] == "SpinDetected" else "crash:" + st["exc"])
             if x["anomalies"]:
                 kinds.append("mpi:" + x["anomalies"][0]["what"])
+            for lo in x.get("leftovers", []):
+                kinds.append(lo["what"])
             for kd in sorted(set(kinds)):
                 run.violation(
                     f"{r['id']}:exec:{kd}",
@@ -148,13 +151,16 @@ def analyse(run: Run, progs: list[dict], results: list[dict], tier: str,
                     record={"prog": p, "choices": x["choices"], "grain": x["grain"]},
                     observed=x, sig=sig_of(p, kd.split(":")[0]))
         for b in d.get("bad", []):
-            kd = "wrong_output" if b["bad_outputs"] else ("deadlock" if b["stuck"] else "crash")
+            kd = "wrong_output" if b["bad_outputs"] else (
+                "deadlock" if b["stuck"] else (
+                    b["leftovers"][0]["what"] if b.get("leftovers") else "crash"))
             run.violation(f"{r['id']}:dfs:{kd}",
                           f"{r['id']}: real executor, schedule {b['choices']} found by "
                           f"exhaustive search: {kd}; status "
                           f"{[(s['status'], s['exc'], s['msg'][:60]) for s in b['status']]}",
                           record={"prog": p, "choices": b["choices"], "grain": "model"},
-                          observed={k: b[k] for k in ("status", "bad_outputs", "stuck")},
+                          observed={k: b.get(k) for k in ("status", "bad_outputs", "stuck",
+                                                          "leftovers")},
                           sig=sig_of(p, kd))
     recs = dc.trace_records(results)
     with ThreadPoolExecutor(max_workers=2) as ex:
